@@ -467,6 +467,7 @@ func analyzeDelegators(p *load.Program, r *Roles, res *UnitResult) {
 		}
 	}
 	n := 0
+	usedFnFields := map[string]map[int]bool{}
 	for _, tn := range []string{"NodeBuilder", "BatchNodeBuilder", "BatchNode", "CustomNode"} {
 		for _, m := range phase {
 			fn := p.DeclaredMethod(tn, m)
@@ -486,6 +487,12 @@ func analyzeDelegators(p *load.Program, r *Roles, res *UnitResult) {
 			for _, pth := range paths {
 				for _, uc := range pth.calls {
 					if uc.fnTerm != nil && (strings.HasPrefix(uc.class, "field:") || strings.HasPrefix(uc.class, "dyn:")) {
+						if ft := uc.fnTerm; ft.K == eng.KLoad && ft.A[0].K == eng.KFieldAddr && ft.A[0].A[0].K == eng.KParam && ft.A[0].A[0].I == 0 {
+							if usedFnFields[tn] == nil {
+								usedFnFields[tn] = map[int]bool{}
+							}
+							usedFnFields[tn][int(ft.A[0].I)] = true
+						}
 						dup := false
 						for _, f := range configured {
 							dup = dup || f == uc.fnTerm
@@ -545,10 +552,15 @@ func analyzeDelegators(p *load.Program, r *Roles, res *UnitResult) {
 				// embedded default - never neither (an input silently passed over) and never twice
 				if !pth.panic && (m == "Prep" || m == "Exec" || m == "Post" || m == "ExecFallback") {
 					okOnce, whyOnce := len(pth.calls) <= 1, fmt.Sprintf("%d calls on one path", len(pth.calls))
-					if len(pth.calls) == 0 {
-						// fine only where no configured function is known to be set (inline default)
-						for _, f := range configured {
-							if pth.e.Eval(pth.st.Facts(), eng.Bin("!=", f, eng.Nil())) == eng.TriTrue {
+					// where a configured function is known to be set, it is the one that is called
+					// (a path without any call is fine only as the inline default)
+					for _, f := range configured {
+						if pth.e.Eval(pth.st.Facts(), eng.Bin("!=", f, eng.Nil())) == eng.TriTrue {
+							called := false
+							for _, uc := range pth.calls {
+								called = called || uc.fnTerm == f
+							}
+							if !called {
 								okOnce, whyOnce = false, "the function "+f.Pretty()+" is set but the path returns without calling it"
 							}
 						}
@@ -582,6 +594,24 @@ func analyzeDelegators(p *load.Program, r *Roles, res *UnitResult) {
 				}
 			}
 			col.CheckAt("C01.R6", label, true, "", "", nil)
+		}
+	}
+	// every function-typed field a node type carries is used by one of its phase methods
+	for _, tn := range []string{"CustomNode", "BatchNode"} {
+		named := p.Named(tn)
+		if named == nil {
+			continue
+		}
+		st, ok := named.Underlying().(*types.Struct)
+		if !ok {
+			continue
+		}
+		for i := 0; i < st.NumFields(); i++ {
+			if _, isFn := st.Field(i).Type().Underlying().(*types.Signature); !isFn {
+				continue
+			}
+			used := usedFnFields[tn][i]
+			col.Check("C01.R6,C19.R8", tn+"."+st.Field(i).Name()+":used", used, p.Position(st.Field(i).Pos()), "no phase method of "+tn+" calls the function stored in field "+st.Field(i).Name()+": configuring it has no effect", nil)
 		}
 	}
 	col.Check("C01.R6", "delegators:count", n >= 8, p.Position(0), fmt.Sprintf("only %d phase methods of library node types found", n), nil)
